@@ -246,7 +246,8 @@ theorem C18_payload_short_raw (h size : Nat) (items : List Nat) (avail : List Na
 /-- **C18 (short payload, compressed).** A compressed array (header type of `h` bytes, base64 or raw, codec a
     parameter) whose payload is cut into non-empty blocks in any way.  Codec hypotheses (`CodecOK`, for the
     blocks of this array): compressed data are bytes and fit the header type, `decompress (compress b) = b`, and
-    decompressing a strict prefix of a compressed block raises.  If the bytes available are a strict prefix of
+    decompressing a strict prefix of a compressed block raises or yields fewer bytes than the block has
+    (`CodecOK.of_raises` for the plain "raises"; LZ4 blocks can decode short).  If the bytes available are a strict prefix of
     what is stored — the cut may lie in the header `[#blocks, block size, last]`, in the list of compressed
     block sizes, inside a block or between two blocks — the reader raises or returns fewer items than declared,
     so the length assertion fails.  `items ≠ []`: the stored form of an EMPTY compressed array is `[0, bs, 0]`
